@@ -47,7 +47,9 @@ UNIT = dict(
                  dict(rule="R3", re=r"if let Ok\(line\) = prompt\.show\(\) \{", to="if let Ok(line) = prompt_show(&mut prompt) {", expect=1, why="Prompt::show shim"),
                  dict(rule="R3", re=r"line == \"quit\"", to="line_is_quit(&line)", expect=1, why="String == &str shim"),
                  dict(rule="R3", re=r"!line\.trim\(\)\.is_empty\(\)", to="!str_trim_is_empty(&line)", expect=1, why="str::trim().is_empty() shim"),
-                 dict(rule="R1", re=r"Compiler::new_with_state\(symtab\.clone\(\), constants\.clone\(\)\)", to="compiler_new_with_state(clone_symtab(&symtab), clone_constants(&constants))", expect=1, why="constructor behind its contract; derived Clone -> structural copy"),
+                 dict(rule="R1", re=r"symtab\.clone\(\)", to="clone_symtab(&symtab)", why="derived Clone -> structural copy"),
+                 dict(rule="R1", re=r"constants\.clone\(\)", to="clone_constants(&constants)", why="derived Clone -> structural copy"),
+                 dict(rule="R3", re=r"Compiler::new_with_state\(", to="compiler_new_with_state(", expect=1, why="constructor behind its contract"),
                  dict(rule="R3", re=r"compiler\.compile\(program\)", to="compiler_compile(&mut compiler, program)", expect=1, why="Compiler::compile behind its contract"),
                  dict(rule="R3f", re=r"eprintln!\(\"\{\}\", e\);", to="eprint_compile_error(e);", expect=1, why="eprintln! -> output shim"),
                  dict(rule="R3", re=r"compiler\.bytecode\(\)", to="compiler_bytecode(&compiler)", expect=1, why="Compiler::bytecode behind its contract"),
@@ -55,9 +57,9 @@ UNIT = dict(
                  dict(rule="R3", re=r"init_builtin_vars\(&vm, args\.clone\(\)\)", to="init_builtin_vars(&vm, clone_args(&args))", expect=1, why="Vec<String> clone shim"),
                  dict(rule="R3", re=r"let err = vm\.run\(\);", to="let err = vm_run(&mut vm);", expect=1, why="VM::run behind its contract (requires a runnable VM)"),
                  dict(rule="R3f", re=r"eprintln!\(\"\{\}\", err\);", to="eprint_rt_error(err);", expect=1, why="eprintln! -> output shim"),
-                 dict(rule="R3", re=r"globals = vm\.globals;", to="globals = vm_take_globals(&mut vm);", expect=2, why="field move out of an opaque type -> shim"),
-                 dict(rule="R3", re=r"symtab = compiler\.symtab;", to="symtab = compiler_take_symtab(&mut compiler);", expect=2, why="field move out of an opaque type -> shim"),
-                 dict(rule="R3", re=r"constants = compiler\.constants;", to="constants = compiler_take_constants(&mut compiler);", expect=2, why="field move out of an opaque type -> shim"),
+                 dict(rule="R3", re=r"globals = vm\.globals;", to="globals = vm_take_globals(&mut vm);", expect="+", why="field move out of an opaque type -> shim"),
+                 dict(rule="R3", re=r"symtab = compiler\.symtab;", to="symtab = compiler_take_symtab(&mut compiler);", expect="+", why="field move out of an opaque type -> shim"),
+                 dict(rule="R3", re=r"constants = compiler\.constants;", to="constants = compiler_take_constants(&mut compiler);", expect="+", why="field move out of an opaque type -> shim"),
                  dict(rule="R3", re=r"// Get the object at the top of the VM's stack\s*let stack_elem = vm\.last_popped\(\);\s*// print last popped element if it is not null\s*if !matches!\(stack_elem\.as_ref\(\), Object::Null\) \{\s*println!\(\"\{\}\", stack_elem\);\s*\}", to="vm_print_last_popped(&mut vm);", expect=1, why="printing of the last popped value -> output shim"),
                  dict(rule="R3f", re=r"println!\(\"\\nExiting\.\.\.\"\);", to="print_exiting();", expect=1, why="println! -> output shim"),
                  # C23: at the two exits of an iteration that REJECTED the line (parse error, compile error) the
